@@ -387,9 +387,9 @@ Covering(n, mp, kp, cn, v, cx) ==
                         /\ (Len(imap[q]) >= 2 => \E k1, k2 \in 1..Len(r.S[2]) : r.S[2][k1] # r.S[2][k2])
            Ws == 0..7
            lrep(q) == cand(q, CHOOSE w \in Ws : okc(q, w) /\ \A w2 \in Ws : w2 < w => ~okc(q, w2))
-           lreps == [q \in 1..Len(imap) |-> lrep(q)]
-           locals == [q \in 1..Len(imap) |-> Contract(lreps[q])]
-           P == CoverPsi(n, [i \in 1..n |-> Dim(kinds[i])], locals, imap)
+           lreps == TLCEval([q \in 1..Len(imap) |-> lrep(q)])
+           locals == TLCEval([q \in 1..Len(imap) |-> Eager(Contract(lreps[q]))])
+           P == Eager(CoverPsi(n, [i \in 1..n |-> Dim(kinds[i])], locals, imap))
        IN /\ Homogeneous(kp)
           /\ \A q \in 1..Len(imap) : \E w \in Ws : okc(q, w)
           /\ ~TIsZero(P) /\ AbsLE(P, 100000000)
